@@ -735,6 +735,14 @@ pub fn family(name: &str, tier: Tier) -> Vec<Case> {
                 s.tasks = vec![echo_task(6000, 1000), uni_task(4000, 0), echo_task(1, 0)];
                 out.push(Case { scn: s, menu: vec![Action::Forge(0), Action::Forge(1), Action::Forge(2), Action::Forge(3)], k: 1, extra: vec![], expect: Expect::Complete, injects: vec![], differential: true, first_index: 0, adv: None, last_index: u32::MAX });
             }
+            // a replay that is older than the duplicate window (128 packet numbers): each of the first
+            // datagrams of a 1.5 MB upload is delivered again 100 ms later, several hundred packets on (late in the
+            // transfer packet numbers are sent in two bytes, so the old number still reconstructs)
+            let mut s = Scenario::base("forge/tls-replay-older-than-window");
+            s.tls = Tls::S2n;
+            s.server_mode.echo = false;
+            s.tasks = vec![vec![Op::OpenUni, Op::Write(1_500_000, 0), Op::Close]];
+            out.push(Case { scn: s, menu: vec![Action::Dup(100_000)], k: 1, extra: vec![], expect: Expect::Complete, injects: vec![], differential: false, first_index: if quick { 600 } else { 4 }, adv: None, last_index: if quick { 640 } else { 1200 } });
             let mut s = Scenario::base("forge/tls-replays");
             s.tls = Tls::S2n;
             s.tasks = vec![echo_task(3000, 1000)];
